@@ -2261,7 +2261,11 @@ fn eval_int_binop(
                 }
             }
         }
-        BinaryOperatorKind::Modulo => match lhs_num.checked_rem_euclid(rhs_num) {
+        // The only overflowing case, i64::MIN % -1, has the exact
+        // remainder 0, which wrapping_rem_euclid returns.
+        BinaryOperatorKind::Modulo => match (rhs_num != 0)
+            .then(|| lhs_num.wrapping_rem_euclid(rhs_num))
+        {
             Some(num) => Value::new(Value_::Int(num)),
             None => {
                 return Err((
